@@ -117,6 +117,9 @@ type addrCase struct {
 	Shallow      bool
 	PackRefs     bool // `git pack-refs --all --prune` before anything is measured: refs/replace/ exists but is empty
 	ShallowEmpty bool // the shallow file exists but is empty (a stale marker): still refused, still untouched
+	// core.useReplaceRefs = true is written into the repository's configuration (the default, said explicitly): in git
+	// up to 2.40 an explicit setting is read after the command line and switches replacement back on
+	UseReplaceCfg bool
 }
 
 func genAddrCase(rng *rand.Rand, id, flavour string) addrCase {
@@ -141,6 +144,10 @@ func genAddrCase(rng *rand.Rand, id, flavour string) addrCase {
 	if strings.HasSuffix(flavour, "-packed") {
 		ac.PackRefs = true
 		flavour = strings.TrimSuffix(flavour, "-packed")
+	}
+	if strings.HasSuffix(flavour, "-usereplace") {
+		ac.UseReplaceCfg = true
+		flavour = strings.TrimSuffix(flavour, "-usereplace")
 	}
 	switch flavour {
 	case "plain":
@@ -270,6 +277,9 @@ func buildLayout(base string, ac *addrCase) (*addrLayout, *gitrepo.Repo, error) 
 		os.WriteFile(l.EnvGraftFile, []byte(expandPlaceholders(ac.Grafts, repo)), 0o644)
 	} else if ac.Grafts != "" {
 		os.WriteFile(filepath.Join(l.GitDir, "info", "grafts"), []byte(expandPlaceholders(ac.Grafts, repo)), 0o644)
+	}
+	if ac.UseReplaceCfg {
+		appendFile(filepath.Join(l.GitDir, "config"), "[core]\n\tuseReplaceRefs = true\n")
 	}
 	if ac.PackRefs {
 		cmd := exec.Command("/usr/bin/git", "pack-refs", "--all", "--prune")
@@ -431,7 +441,7 @@ func checkC13(c *Ctx) {
 	env := newScanEnv(c, true, false)
 	e := &c10Env{c: c, env: env, fake: buildFakeGit(c)}
 	rng := rand.New(rand.NewSource(c.Seed))
-	flavours := []string{"plain", "replace-commit", "replace-commit-smaller", "replace-tree", "replace-blob", "graft-add", "graft-drop", "graft-redirect", "graft-env-add", "graft-env-redirect", "replace-commit-packed", "replace-blob-packed", "replace-tree-packed", "shallow", "shallow-empty"}
+	flavours := []string{"plain", "replace-commit", "replace-commit-smaller", "replace-tree", "replace-blob", "graft-add", "graft-drop", "graft-redirect", "graft-env-add", "graft-env-redirect", "replace-commit-packed", "replace-blob-packed", "replace-tree-packed", "replace-commit-usereplace", "replace-tree-usereplace", "shallow", "shallow-empty"}
 	rounds := 1
 	if !quick(c) {
 		rounds = 5
